@@ -231,6 +231,7 @@ type c31Part struct {
 	Partition int32
 	Batches   []c31Batch
 	NilRecs   bool
+	Legacy    bool // magic-1 message set (produce v2): cannot carry headers, must pass through
 	Wire      []byte
 }
 
@@ -245,6 +246,7 @@ type c31Case struct {
 	MaxBlob     int64
 	DefaultAlg  string
 	Topics      []c31Topic
+	Legacy      bool
 	ErrTrigger  string // non-empty: the request carries a record the proxy must refuse
 	NFlagged    int
 	NUnflagged  int
@@ -271,8 +273,33 @@ func c31Gen(rng *rand.Rand, ci int) c31Case {
 	seq := 0
 	nt := 1 + rng.Intn(3)
 	tperm := rng.Perm(len(c31Topics))
+	if rng.Intn(30) == 0 {
+		// produce v2 with magic-1 message sets: no headers, hence no flag; must reach the broker unchanged
+		c.Version, c.Legacy = 2, true
+		for ti := 0; ti < nt; ti++ {
+			tp := c31Topic{Name: c31Topics[tperm[ti]]}
+			for pi, np := 0, 1+rng.Intn(2); pi < np; pi++ {
+				p := c31Part{Partition: int32(pi), Legacy: true}
+				for k, nm := 0, 1+rng.Intn(4); k < nm; k++ {
+					val := make([]byte, rng.Intn(200))
+					rng.Read(val)
+					if rng.Intn(4) == 0 {
+						val = append([]byte("LFS_BLOB"), val...) // the marker as payload text is not a flag
+					}
+					p.Wire = append(p.Wire, c31LegacyMessage(int64(k), 1700000000000+int64(k), []byte(fmt.Sprintf("k%d", k)), val)...)
+				}
+				tp.Parts = append(tp.Parts, p)
+			}
+			c.Topics = append(c.Topics, tp)
+		}
+		return c
+	}
+	bigDone := false
 	for ti := 0; ti < nt; ti++ {
 		tp := c31Topic{Name: c31Topics[tperm[ti]]}
+		if ti > 0 && rng.Intn(15) == 0 {
+			tp.Name = c.Topics[0].Name // the same topic listed twice
+		}
 		np := 1 + rng.Intn(3)
 		for pi := 0; pi < np; pi++ {
 			p := c31Part{Partition: int32(pi * (1 + rng.Intn(3)))}
@@ -317,6 +344,19 @@ func c31Gen(rng *rand.Rand, ci int) c31Case {
 					if rng.Intn(10) == 0 {
 						rec.Attributes = int8(rng.Intn(4))
 					}
+					if rng.Intn(25) == 0 {
+						rec.Key = bytes.Repeat([]byte{byte('a' + rng.Intn(26))}, 1024)
+					}
+					big := false
+					if !bigDone && !wantTrigger && mode != 0 && rng.Intn(1200) == 0 {
+						// one value beyond the real 5 MiB chunk size: Upload's multipart branch with production part sizes
+						bigDone, big = true, true
+						v := make([]byte, 5<<20+1+rng.Intn(70000))
+						rng.Read(v[:4096])
+						copy(v[4096:], bytes.Repeat(v[:4096], len(v)/4096))
+						rec.Value = append(rec.Value[:len(rec.Value):len(rec.Value)], v...)
+						c.ChunkSize = 5 << 20
+					}
 					if rng.Intn(4) == 0 {
 						rec.Headers = append(rec.Headers, kbatch.Header{Key: []string{"content-type", "Content-Type", "traceparent", "x-request-id", "LFS_BLOB_X", "lfs_blob"}[rng.Intn(6)], Value: []byte(fmt.Sprintf("hv%d", rng.Intn(50)))})
 					}
@@ -331,6 +371,7 @@ func c31Gen(rng *rand.Rand, ci int) c31Case {
 					default:
 						flag = rng.Intn(5) < 2
 					}
+					flag = flag || big
 					if !flag {
 						continue
 					}
@@ -437,11 +478,28 @@ func c31Digest(alg string, v []byte) string {
 	}
 }
 
+// c31LegacyMessage renders one magic-1 message (offset, size, crc32-IEEE, magic, attributes, timestamp, key, value).
+func c31LegacyMessage(offset, ts int64, key, value []byte) []byte {
+	body := []byte{1, 0}
+	body = binary.BigEndian.AppendUint64(body, uint64(ts))
+	body = binary.BigEndian.AppendUint32(body, uint32(len(key)))
+	body = append(body, key...)
+	body = binary.BigEndian.AppendUint32(body, uint32(len(value)))
+	body = append(body, value...)
+	out := binary.BigEndian.AppendUint64(nil, uint64(offset))
+	out = binary.BigEndian.AppendUint32(out, uint32(4+len(body)))
+	out = binary.BigEndian.AppendUint32(out, crc32.ChecksumIEEE(body))
+	return append(out, body...)
+}
+
 // c31Encode renders every batch with the reference encoder and own compression.
 func c31Encode(c *c31Case) error {
 	for ti := range c.Topics {
 		for pi := range c.Topics[ti].Parts {
 			p := &c.Topics[ti].Parts[pi]
+			if p.Legacy {
+				continue
+			}
 			var wire []byte
 			for bi := range p.Batches {
 				b := &p.Batches[bi]
@@ -591,7 +649,7 @@ func c31Run(t *testing.T, leg string, routed bool) {
 
 	logger := slog.New(slog.NewTextHandler(io.Discard, nil))
 	s3f := newVfS3(0)
-	n := r.N(600, 12000)
+	n := r.N(800, 12000)
 	if routed {
 		n = r.N(300, 4000)
 	}
@@ -650,6 +708,12 @@ func c31Run(t *testing.T, leg string, routed bool) {
 		// self-check of the generator: the reference decoder must read back what was specified
 		for ti, tp := range c.Topics {
 			for pi, p := range tp.Parts {
+				if p.Legacy {
+					if !bytes.Equal(req.Topics[ti].Partitions[pi].Records, p.Wire) {
+						t.Fatalf("case %d: harness self-check: legacy message set not carried by the request", ci)
+					}
+					continue
+				}
 				got, _, err := c31DecodeBatches(req.Topics[ti].Partitions[pi].Records)
 				if err != nil || len(got) != len(p.Batches) {
 					t.Fatalf("case %d: harness self-check: reference decode of generated input: %v (%d batches, want %d)", ci, err, len(got), len(p.Batches))
@@ -719,6 +783,23 @@ func c31Run(t *testing.T, leg string, routed bool) {
 			return out
 		}
 		sig := c31Sig(&c)
+		want := c.Topics
+		if routed && len(afterTopics) != len(c.Topics) {
+			// (an untouched request is forwarded verbatim; a rewritten one is re-grouped)
+			// the fan-out groups partitions per topic name: a topic listed twice reaches the backend as one
+			// entry holding the partitions of both, in order. That is the same request; compare against that form.
+			want = nil
+			idx := map[string]int{}
+			for _, tp := range c.Topics {
+				i, ok := idx[tp.Name]
+				if !ok {
+					idx[tp.Name] = len(want)
+					want = append(want, c31Topic{Name: tp.Name})
+					i = len(want) - 1
+				}
+				want[i].Parts = append(want[i].Parts, tp.Parts...)
+			}
+		}
 		if panicked != nil {
 			r.Violation("panic_in_rewrite", fmt.Sprintf("rewriteProduceRecords panicked: %v", panicked), replay(nil))
 			r.Case(sig, false)
@@ -734,6 +815,16 @@ func c31Run(t *testing.T, leg string, routed bool) {
 			}
 			r.Case(sig, false)
 			continue
+		}
+		if rerr != nil && c.Legacy {
+			// not judged: nothing was rewritten or forwarded; the statement is about rewritten requests
+			r.Count("legacy_message_set_requests_refused", 1)
+			r.Note("last_legacy_error", fmt.Sprintf("case %d: %v", ci, rerr))
+			r.Case(sig, false)
+			continue
+		}
+		if c.Legacy {
+			r.Count("legacy_message_set_requests_passed", 1)
 		}
 		if rerr != nil {
 			r.Count("unexpected_errors", 1)
@@ -751,11 +842,11 @@ func c31Run(t *testing.T, leg string, routed bool) {
 			// informational only: "modified" is internal, the statement is about the bytes
 			r.Count("modified_flag_disagrees_with_flag_presence", 1)
 		}
-		if len(afterTopics) != len(c.Topics) {
-			viol("topic_count_changed", fmt.Sprintf("%d topics became %d", len(c.Topics), len(afterTopics)), nil)
+		if len(afterTopics) != len(want) {
+			viol("topic_count_changed", fmt.Sprintf("%d topics became %d", len(want), len(afterTopics)), nil)
 		}
-		for ti := 0; ti < len(c.Topics) && ti < len(afterTopics) && ok; ti++ {
-			tp := c.Topics[ti]
+		for ti := 0; ti < len(want) && ti < len(afterTopics) && ok; ti++ {
+			tp := want[ti]
 			if afterTopics[ti].Topic != tp.Name || len(afterTopics[ti].Partitions) != len(tp.Parts) {
 				viol("topic_or_partition_list_changed", fmt.Sprintf("topic %d: %q/%d partitions became %q/%d", ti, tp.Name, len(tp.Parts), afterTopics[ti].Topic, len(afterTopics[ti].Partitions)), nil)
 				break
@@ -852,6 +943,9 @@ func c31Run(t *testing.T, leg string, routed bool) {
 							r.Count("flagged_null_values", 1)
 						} else if len(orig.Value) == 0 {
 							r.Count("flagged_empty_values", 1)
+						}
+						if len(orig.Value) > 5<<20 {
+							r.Count("flagged_values_beyond_5MiB", 1)
 						}
 						if int64(len(orig.Value)) > c.ChunkSize {
 							r.Count("flagged_values_uploaded_multipart", 1)
